@@ -44,9 +44,30 @@ class Setup:
         self.norm = normalize_project_name
         self.unreadable = {i for i, f in enumerate(case["files"]) if f.get("unreadable")}
 
+    @staticmethod
+    def _foreign_python(c):
+        import re
+        import sys as _sys
+        pv = getattr(c.py_version, "py_versions", None)
+        if not pv:
+            return False
+        for t in pv:
+            m = re.match(r"^(cp|py)(\d)(\d*)$", t)
+            if not m:
+                continue            # other implementations / odd tags: left to the code (and to C20)
+            major, minor = int(m.group(2)), m.group(3)
+            if major == _sys.version_info.major and (minor == "" or int(minor) <= _sys.version_info.minor):
+                return False
+        return all(re.match(r"^(cp|py)(\d)(\d*)$", t) for t in pv)
+
     def facts(self, i, c):
         R = self.R
         tags_ok = R.check_usability(None, c, has_equality=True, allow_prereleases=True) is None
+        # the tag predicate is C20's subject and is taken from the code - except for what the harness can say itself from
+        # the interpreter's version: a wheel whose python tags are all for another major version, a newer minor version or
+        # another implementation is not installable here, whatever the code says
+        if tags_ok and c.type == R.DistributionType.WHEEL and self._foreign_python(c):
+            tags_ok = False
         return {
             "name_ok": self.norm(c.name) == self.norm(self.req.project_name),
             "is_pre": bool(c.version.is_prerelease),
